@@ -228,6 +228,25 @@ def new (t : Triple) (m : Mem) : Stat × Option Hdr × Mem :=
   let a := m.allocT t
   if !a.1 then (.errAlloc, none, a.2) else (.ok, some { triple := t }, a.2)
 
+/-- the loop of `cc_slist_filter_mut`: `prev` trails `curr` and advances only over nodes that are kept, so that it is the
+predecessor `unlinkn` needs (a `prev` that also advanced over an unlinked node would be a dangling pointer and the true
+predecessor's `next` would never be updated) -/
+def filterMutLoop (pr : Nat → Bool) : Nat → St → Hdr → Option Nat → Option Nat → Mem → St × Hdr × Mem
+  | 0, s, l, _, _, m => (s, l, m)
+  | _, s, l, none, _, m => (s, l, m)
+  | k + 1, s, l, some curr, prev, m =>
+    let next := (nd s.heap curr).next
+    if !pr (nd s.heap curr).data then
+      let u := unlinkn s l curr prev m
+      filterMutLoop pr k u.2.1 u.2.2.1 next prev u.2.2.2
+    else filterMutLoop pr k s l next (some curr) m
+
+/-- `cc_slist_filter_mut` -/
+def filterMut (pr : Nat → Bool) (s : St) (l : Hdr) (m : Mem) : Stat × St × Hdr × Mem :=
+  if l.size = 0 then (.errOutOfRange, s, l, m) else
+  let r := filterMutLoop pr l.size s l l.head none m
+  (.ok, r.1, r.2.1, r.2.2)
+
 /-- data along `next` from `head` -/
 def fwd (h : Heap) (l : Hdr) : List Nat := PList.dataNext h l.size l.head
 
